@@ -168,6 +168,10 @@ def one_case(ctx, rng, idx, probe=False):
                     kw['outputFormat'] = f_
             steps.append(DF.set_type(DF.helpers.resource_matcher.re.escape(n) if False else __import__('re').escape(n),
                                      type=t, resources='res_%d' % (i + 1), **kw))
+    # the incoming descriptors may carry the encoding of where the data came from (load(..., encoding=...) records it)
+    src_encoding = rng.choice([None, None, None, 'latin-1', 'cp1252', 'utf-16'])
+    if src_encoding:
+        steps.append(DF.update_resource(None, encoding=src_encoding))
     # rows are dicts: the order of their keys need not be the order of the schema fields
     key_order = rng.choice(['schema', 'schema', 'reversed', 'shuffled'])
     if key_order != 'schema':
@@ -191,7 +195,7 @@ def one_case(ctx, rng, idx, probe=False):
         os.makedirs(base, exist_ok=True)
         steps.append(DF.dump_to_zip(os.path.join(base, 'o.zip'), **kw))
     case = {'format': fmt, 'target': target, 'add_filehash_to_path': filehash, 'temporal_format_property': tfp,
-            'row_key_order': key_order,
+            'row_key_order': key_order, 'incoming_encoding': src_encoding,
             'resources': [{'fields': f, 'rows': canon._plain(r)} for f, r in resources], 'probe': probe}
     try:
         with quiet():
